@@ -259,4 +259,27 @@ def check(ctx):
     ioc = st.methods.get("_ignore_or_compatible")
     ok = ioc is not None and "_constraints_compatible(tensor, constraints, strict)" in ast.unparse(ioc.node)
     ctx.ob("C13.e", "_ignore_or_compatible checks compatibility against the full constraint mapping", ok, "", ioc.where if ioc else "")
+    # constraint helpers: documented dimensionality / compatibility / consistency predicates
+    cd = P.fn("_constraint_dimensionality", module="core.infrastructure")
+    specs.compare(ctx, "C13.e", "_constraint_dimensionality: 0 if none; strict: max(maxdim + 1, 0) - min(mindim, 0); else max(maxdim + 1, |mindim|)", cd, """
+def spec(constraints, strict):
+    if not constraints:
+        return 0
+    return (max(max(constraints) + 1, 0) - min(min(constraints), 0)) if strict else max(max(constraints) + 1, abs(min(constraints)))
+""", source="helper docstring", inline_depth=0)
+    cc = P.fn("_constraints_compatible", module="core.infrastructure")
+    specs.compare(ctx, "C13.e", "_constraints_compatible: enough dimensions and shape[d] == s for every constraint", cc, """
+def spec(tensor, constraints, strict):
+    if tensor.ndim < _constraint_dimensionality(constraints, strict):
+        return False
+    return all(starmap(lambda d, s, shape=tensor.shape: shape[d] == s, constraints.items()))
+""", source="helper docstring", inline_depth=0)
+    cs = P.fn("_constraints_consistent", module="core.infrastructure")
+    ctx.touch(cs)
+    g = CFG(cs.node)
+    retF = [n for n in g.nodes if n.kind == "stmt" and isinstance(n.ast, ast.Return) and isinstance(n.ast.value, ast.Constant) and n.ast.value.value is False]
+    gs = [(ast.unparse(t), lab) for r in retF for t, lab in g.guards_of(r)]
+    ok = len(retF) == 1 and ("hypoth[dim] is None", "F") in gs and ("hypoth[dim] == size", "F") in gs and \
+        any(isinstance(n.ast, ast.Return) and isinstance(n.ast.value, ast.Constant) and n.ast.value.value is True for n in g.nodes if n.kind == "stmt")
+    ctx.ob("C13.e", "_constraints_consistent: False exactly when two constraints name the same physical dim with different sizes", ok, f"{gs}", cs.where)
     ctx.assume("slicing, torch.cat and roll implement their documented semantics")
